@@ -5,8 +5,7 @@ import ExaModel.Props.C05
 #print axioms Exa.Props.C05.only_rfc_transitions
 #print axioms Exa.Props.C05.labels_are_the_state
 #print axioms Exa.Props.C05.established_requires
-#print axioms Exa.Props.C05.send_only_established_partial
-#print axioms Exa.Props.C05.send_only_established_fails
+#print axioms Exa.Props.C05.send_only_established
 #print axioms Exa.Props.C05.leave_closes
 #print axioms Exa.Props.C05.transports_closed_or_current
 #print axioms Exa.Props.C05.up_down_alternate
